@@ -503,6 +503,12 @@ def _run(c, d, rebound, drv, open_exe, app_exe, W):
     SplitMix(777).shuffle(ik_all)
     nik = len(ik_all) if c.thorough else 19
     ik = (ik_all + ik_all)[((c.seed - 1) * nik) % len(ik_all):][:nik]
+    # dimension obligations must not depend on the seed: the archive kinds a required dimension needs come first in every run
+    for must in (("whfast", "lazy_vanish"), ("ias15", "plain")):
+        if must in ik_all:
+            if must in ik:
+                ik.remove(must)
+            ik.insert(0, must)
     # restart array: all pairs of C07_RESTART_FACTORS (no exclusions) + every (write, cut, pattern) triple
     noexc = lambda *a: False
     rs_tracker = ac.PairTracker(C07_RESTART_FACTORS, noexc)
